@@ -29,6 +29,8 @@ Step ==
             /\ IF E.panic = 1 THEN Flag("panic")
                ELSE IF E.err = 1 THEN Flag("roundtrip-error")
                ELSE IF E.rows # E.want THEN Flag("roundtrip-rows")
+               \* meta: per row group, 1 iff the column metadata obtained with the keys names the column, its type and codec
+               ELSE IF \E g \in 1..Len(E.meta) : E.meta[g] = 0 THEN Flag("column-metadata-lost")
                ELSE Ok("rounds")
        [] E.ev = "Leak" ->
             /\ expect' = expect
